@@ -10,6 +10,7 @@
          ops: get k | sget k | in k | len | set k v | mod k v | rm k | addk k | disc k | ins k v
               | union n (k v)*n | uadd n (k v)*n | inter n (k v)*n | diff n (k v)*n | deq n (k v)*n
      unique n key*n | setof n key*n | count n key*n | freq n key*n | group n key*n
+     dictop <set|dict|keys|values|items|unique|count|freq|group> <_ | d key> n (key key)*n    (the argument is a dictionary)
      memo <ncalls> (<nargs> key*nargs)*ncalls
    Output values use the harness's canonical text (I5, R1/2, F<16 hex>, Fnan, C<re>,<im>, S"..", L[..], V[..],
    B[..], D{k:v,..} with entries sorted as strings, N). *)
@@ -154,7 +155,30 @@ let () = serve (fun line ->
           show_obs x ^ " " ^ cont ^ " " ^ bcont) ops in
         String.concat " ; " out
     | "unique" -> let n = next_int () in "L[" ^ String.concat "," (List.map show_key (uniqued slot (times n parse_key))) ^ "]"
-    | "setof" -> let n = next_int () in show_store (fun () -> "N") (set_of slot (times n parse_key)) None
+    | "setof" -> let n = next_int () in
+        let (st, def) = set_dict slot KNull (times n parse_key) in
+        show_store show_key st (match def with None -> None | Some v -> Some (show_key v))
+    | "dictop" ->
+        (* a dictionary argument {k: v, ...} (values are keys here) with an optional default *)
+        let o = next () in
+        let def = (match next () with "_" -> None | "d" -> Some (parse_key ()) | t -> raise (Bad ("default " ^ t))) in
+        let n = next_int () in
+        let pairs = times n (fun () -> let k = parse_key () in let v = parse_key () in (k, v)) in
+        let st = from_pairs slot pairs in
+        let ks = dict_keys st in
+        let lst l = "L[" ^ String.concat "," l ^ "]" in
+        (match o with
+         | "set" -> let (s2, d2) = set_dict slot KNull ks in
+                    show_store show_key s2 (match d2 with None -> None | Some v -> Some (show_key v))
+         | "dict" -> show_store show_key st (match def with None -> None | Some v -> Some (show_key v))
+         | "keys" -> lst (List.map show_key ks)
+         | "values" -> lst (List.map show_key (dict_values st))
+         | "items" -> lst (List.map (fun (k, v) -> lst [show_key k; show_key v]) st)
+         | "unique" -> lst (List.map show_key (uniqued slot ks))
+         | "count" -> "I" ^ string_of_int (int_of_nat (count_distinct slot ks))
+         | "freq" -> show_store (fun c -> "I" ^ string_of_coqn c) (frequencies slot ks) (Some "I0")
+         | "group" -> lst (List.map (fun g -> lst (List.map show_key g)) (group_all slot (fun k -> k) ks))
+         | _ -> raise (Bad ("dictop " ^ o)))
     | "count" -> let n = next_int () in "I" ^ string_of_int (int_of_nat (count_distinct slot (times n parse_key)))
     | "freq" -> let n = next_int () in show_store (fun c -> "I" ^ string_of_coqn c) (frequencies slot (times n parse_key)) (Some "I0")
     | "group" -> let n = next_int () in
